@@ -83,8 +83,28 @@ fn strategy_shared() -> BoxedStrategy<Case> {
 }
 
 fn strategy_repro() -> BoxedStrategy<Case> {
-  (vec(tree(cfg()), 40..=40), vec(0u8..OBS.len() as u8, 0..=4))
-    .prop_map(|(specs, history)| Case::Repro { specs: specs.into_iter().map(|s| normalize(s, cfg())).collect(), history })
+  // 40 trees, ten of them extended by a raw leaf of 60-260 bytes (a size at which hashing strategies change) - bare, cached,
+  // or next to the tree
+  (vec(tree(cfg()), 40..=40), vec(0u8..OBS.len() as u8, 0..=4), vec((crate::gen::text(true, 6), 60usize..=260, 0u8..5u8), 10..=10))
+    .prop_map(|(specs, history, extra)| {
+      let mut specs: Vec<Spec> = specs.into_iter().map(|s| normalize(s, cfg())).collect();
+      for (i, (pat, n, kind)) in extra.into_iter().enumerate() {
+        let pat = if pat.is_empty() { "ab;".to_string() } else { pat };
+        let mut t = String::new();
+        while t.len() < n {
+          t.push_str(&pat);
+        }
+        let old = std::mem::replace(&mut specs[i * 4], Spec::Raw(String::new()));
+        specs[i * 4] = match kind {
+          0 => Spec::Raw(t),
+          1 => Spec::RawStr(t),
+          2 => Spec::Cached(Box::new(Spec::RawStr(t))),
+          3 => Spec::Concat { how: 1, children: vec![Spec::RawStr(t), old] },
+          _ => Spec::Concat { how: 0, children: vec![old, Spec::Cached(Box::new(Spec::Raw(t)))] },
+        };
+      }
+      Case::Repro { specs, history }
+    })
     .boxed()
 }
 
@@ -178,7 +198,7 @@ impl Prop for C20 {
      independent trees; or (third leg) two SourceMapSources whose maps share their payload (clone + one setter), bare or wrapped; \
      a pair is KEPT only if source(), buffer(), map(columns) or map(lines) (as JSON text) differ, and then must \
      compare unequal and hash differently (a second hasher rules out a 64-bit collision). Reproducibility: batches of \
-     40 trees are hashed in a freshly spawned process, on another thread and after an observer history. Non-trivial: a \
+     40 trees (ten of them with a raw leaf of 60-260 bytes) are hashed in a freshly spawned process, on another thread, after an observer history, and with every raw leaf built through the other public constructor spellings (text in a `&'static str` at an unaligned address / in a heap copy), under SipHash and under a hasher that is sensitive to how bytes are cut into write calls. Non-trivial: a \
      kept pair whose edit is at depth>=2, or a reproducibility batch; distinct by hash of the case JSON".into()
   }
   fn legs(&self, _tier: Tier) -> Vec<Leg<Case>> {
@@ -222,7 +242,19 @@ impl Prop for C20 {
               return Err(format!("tree #{i}: hash {a} here, {b} on another thread, {c} after observers {:?}", history));
             }
           }
-          // "does not depend on addresses": each tree doubled in an add-typed ConcatSource, once from separately allocated
+          // "does not depend on addresses": raw leaves spelled through the other public constructors (text in a
+          // `&'static str` at an arbitrary address / in a heap copy), hashed with SipHash and with a hasher that is
+          // sensitive to how bytes are cut into write calls
+          for (i, s) in specs.iter().enumerate() {
+            let split = crate::props::common::hash_split(&*build(s));
+            for shift in [1u8, 2] {
+              let re = crate::build::with_respell(shift, || build(s));
+              if hash_of(&*re) != here[i] || crate::props::common::hash_split(&*re) != split {
+                return Err(format!("tree #{i} hashes differently when its raw leaves are built through another constructor spelling (same content, text at another address): {}", serde_json::to_string(s).unwrap()));
+              }
+            }
+          }
+          // each tree doubled in an add-typed ConcatSource, once from separately allocated
           // children and once as c.add(c.clone()), i.e. with the same reference-counted children at two positions
           for (i, s) in specs.iter().enumerate() {
             let d = Spec::Concat { how: 1, children: vec![s.clone(), s.clone()] };
